@@ -45,7 +45,7 @@ PARSE_ERR = b'{"jsonrpc":"2.0","id":null,"error":{"code":-32700,"message":"Parse
 
 def gen_messages(ctx):
     rng = ctx.rng
-    n = ctx.scale(12000, 450000)
+    n = ctx.scale(20000, 450000)
     msgs = []
 
     def add(m, tag):
@@ -161,7 +161,7 @@ def run(ctx):
     ctx.engines = ["srvmsg (harness/src/bin/srvmsg.rs vs modelrun/server_driver.ml over coq/Model/Server.v), single messages, HTTP + WebSocket"]
     rng = ctx.rng
     msgs = gen_messages(ctx)
-    n_ws = ctx.scale(2500, 60000)
+    n_ws = ctx.scale(4000, 60000)
     cases = [("http", "u", m, tag) for m, tag in msgs]
     ws_pick = rng.sample(range(len(msgs)), min(n_ws, len(msgs)))
     for i in ws_pick:
